@@ -167,7 +167,11 @@ impl Sanitizer {
             }
         }
 
-        result.trim_end_matches(sep).to_string()
+        // A leading separator must go before truncation, or it is counted against max_length
+        result
+            .trim_start_matches(sep)
+            .trim_end_matches(sep)
+            .to_string()
     }
 
     /// Remove leading zeros from numeric segments
